@@ -40,7 +40,7 @@ type dhcpSubnet struct {
 // newSubnet create a subnet structure to track lease allocation.
 func newSubnet(config SubnetConfig) (*dhcpSubnet, error) {
 
-	if !config.LAN.IsValid() {
+	if !config.LAN.IsValid() || !config.LAN.Addr().Is4() { // As4 below panics for an IPv6 prefix
 		return nil, fmt.Errorf("invalid subnet %s", config.LAN)
 	}
 	subnet := dhcpSubnet{}
